@@ -148,6 +148,66 @@ def _k_lt_factory(c) -> CaseInfo:
     return CaseInfo(exp >= DAY - UNITS["hours"] or exp == 0, "lt_factory:accepted")
 
 
+def _k_lt_period(c) -> CaseInfo:
+    """LocalTime +/- Period (time units only) in every spelling, and the refusal of date components."""
+    from pyoda_time import LocalTime, PeriodBuilder
+
+    ns, p = c["ns"], c["p"]
+    if not 0 <= ns < DAY or any(k not in UNITS for k in p if k not in ("years", "months", "weeks", "days")):
+        raise InvalidCase
+    t = LocalTime.from_nanoseconds_since_midnight(ns)
+    period = PeriodBuilder(**p).build()
+    has_date = any(p.get(k, 0) for k in ("years", "months", "weeks", "days"))
+    forms = {
+        "add": (lambda: t + period, lambda: LocalTime.add(t, period), lambda: t.plus(period)),
+        "sub": (lambda: t - period, lambda: LocalTime.subtract(t, period), lambda: t.minus(period)),
+    }
+    delta = sum(p.get(k, 0) * UNITS[k] for k in ("hours", "minutes", "seconds", "milliseconds", "ticks", "nanoseconds"))
+    for nm, fns in forms.items():
+        exp = (ns + (delta if nm == "add" else -delta)) % DAY
+        for j, fn in enumerate(fns):
+            try:
+                r = fn()
+            except ValueError:
+                need(has_date, f"lt_period/{nm}{j}/raised-for-time-only-period", f"{p}")
+                continue
+            need(not has_date, f"lt_period/{nm}{j}/date-component-accepted", f"{p}")
+            need(isinstance(r, LocalTime) and r.nanosecond_of_day == exp, f"lt_period/{nm}{j}/value", f"ns={ns} {p}: {r.nanosecond_of_day} != {exp}")
+    need(t.nanosecond_of_day == ns, "receiver-mutated")
+    return CaseInfo(has_date or (ns + delta) // DAY != 0 or (ns - delta) // DAY != 0, "lt_period")
+
+
+def _k_lt_adjust(c) -> CaseInfo:
+    """Truncating adjusters and the composition / decomposition helpers keep or cut exactly what they say."""
+    from pyoda_time import LocalTime, Offset, OffsetTime, TimeAdjusters
+
+    ns, cid, n, off = c["ns"], c["cal"], c["n"], c["off"]
+    cal = pyo.cal(cid)
+    if not (0 <= ns < DAY and cal._min_days <= n <= cal._max_days and abs(off) <= 64800):
+        raise InvalidCase
+    t = LocalTime.from_nanoseconds_since_midnight(ns)
+    date = pyo.date_from_day(cid, n)
+    ldt = t.on(date)
+    need(pyo.ldt_total(ldt) == n * DAY + ns and ldt.calendar is cal and ldt == date.at(t), "on(date)")
+    check_time_accessors(ldt, ns, "LocalDateTime(on)")
+    need(ldt.date == date and ldt.time_of_day == t, "on(date)/parts")
+    o = Offset.from_seconds(off)
+    ot = t.with_offset(o)
+    need(isinstance(ot, OffsetTime) and ot.offset.seconds == off and ot.time_of_day == t and ot == OffsetTime(t, o), "with_offset")
+    check_time_accessors(ot, ns, "OffsetTime(with_offset)")
+    for nm, unit in (("truncate_to_second", 10**9), ("truncate_to_minute", 60 * 10**9), ("truncate_to_hour", 3600 * 10**9)):
+        adj = getattr(TimeAdjusters, nm)
+        exp = ns - ns % unit
+        need(adj(t).nanosecond_of_day == exp, f"{nm}/LocalTime", f"{ns} -> {adj(t).nanosecond_of_day}")
+        need(t.with_time_adjuster(adj).nanosecond_of_day == exp, f"{nm}/with_time_adjuster")
+        l2 = ldt.with_time_adjuster(adj)
+        need(pyo.ldt_total(l2) == n * DAY + exp and l2.calendar is cal, f"{nm}/LocalDateTime", f"{pyo.ldt_total(l2)}")
+        o2 = ot.with_time_adjuster(adj)
+        need(o2.nanosecond_of_day == exp and o2.offset.seconds == off, f"{nm}/OffsetTime")
+    need(t.nanosecond_of_day == ns and pyo.ldt_total(ldt) == n * DAY + ns, "receiver-mutated")
+    return CaseInfo(ns % 10**9 != 0 or cid != "ISO", "lt_adjust")
+
+
 def _expect_ldt(res_fn, cid: str, total: int, what: str) -> bool:
     """res_fn() must yield the LocalDateTime at model `total` in calendar cid, or raise iff the day is outside it."""
     c = pyo.cal(cid)
@@ -294,6 +354,11 @@ def task_hyp(ctx: Ctx, shard: int, n: int) -> None:
         ctx.case("ldt_plus", {"cal": cid, "n": n_, "nod": ns, "unit": lu, "amt": edge})
         ctx.case("ldt_period", {"cal": cid, "n": n_, "nod": ns, "p": p, "minus": minus})
         ctx.case("lt_factory", fa)
+        tp = {k: v for k, v in p.items() if k in UNITS and k in ("hours", "minutes", "seconds", "milliseconds", "ticks", "nanoseconds")}
+        ctx.case("lt_period", {"ns": ns, "p": tp})
+        if amt % 5 == 0:
+            ctx.case("lt_period", {"ns": ns, "p": p})  # usually with date components: must be refused
+        ctx.case("lt_adjust", {"ns": ns, "cal": cid, "n": n_, "off": (amt % 129601) - 64800})
 
     fa = st.one_of(
         st.tuples(st.integers(-1, 24), comp, comp, st.integers(-1, 1000)).map(lambda t: {"f": "ctor", "args": list(t)}),
